@@ -282,4 +282,119 @@ example :
         fun p => evalPlan p a b).map FArr.toList
       = some (einsum2 [0, 1, 2] [2, 1, 3] [3, 0] a b).toList := by decide
 
+
+/-! ## Tier 1: structure of the plan (all of it is implied by `model_plan_sound`; stated separately
+because these facts hold for HEAD's planner as well, without any guard) -/
+
+/-- **plan_groups_partition** — under consistent shapes the four groups are exactly: non-trivial
+    labels on both operands and in the output (`bat`), on both and not in the output (`con`), on
+    one operand and in the output (`a_keep`, `b_keep`); `singletons` are the output labels of size 1;
+    `out_produced` lists every output label exactly once; `desired_a` and `desired_b` are
+    duplicate-free. -/
+theorem plan_groups_partition (sz : Ix → Nat) (aT bT out : List Ix) (hout : out.Nodup)
+    (hsub : ∀ o ∈ out, o ∈ aT ∨ o ∈ bT) :
+    (∀ i, i ∈ (groups aT (aT.map sz) bT (bT.map sz) out).bat ↔
+        (i ∈ aT ∧ sz i ≠ 1) ∧ i ∈ bT ∧ i ∈ out) ∧
+    (∀ i, i ∈ (groups aT (aT.map sz) bT (bT.map sz) out).con ↔
+        (i ∈ aT ∧ sz i ≠ 1) ∧ i ∈ bT ∧ i ∉ out) ∧
+    (∀ i, i ∈ (groups aT (aT.map sz) bT (bT.map sz) out).aKeep ↔
+        (i ∈ aT ∧ sz i ≠ 1) ∧ i ∉ bT ∧ i ∈ out) ∧
+    (∀ i, i ∈ (groups aT (aT.map sz) bT (bT.map sz) out).bKeep ↔
+        (i ∈ bT ∧ sz i ≠ 1) ∧ i ∉ aT ∧ i ∈ out) ∧
+    (∀ i, i ∈ out.filter (has (singlesSet aT (aT.map sz) bT (bT.map sz))) ↔ i ∈ out ∧ sz i = 1) ∧
+    (out.filter (has (singlesSet aT (aT.map sz) bT (bT.map sz))) ++
+        (groups aT (aT.map sz) bT (bT.map sz) out).bat ++
+        (groups aT (aT.map sz) bT (bT.map sz) out).aKeep ++
+        (groups aT (aT.map sz) bT (bT.map sz) out).bKeep).Perm out ∧
+    (desiredA aT bT out (aT.map sz) (bT.map sz)).Nodup ∧
+    (desiredB aT bT out (aT.map sz) (bT.map sz)).Nodup := by
+  obtain ⟨hm, hn⟩ := produced_spec (sz := sz) hout hsub
+  refine ⟨fun _ => mem_bat, fun _ => mem_con, fun _ => mem_aKeep, fun _ => mem_bKeep, ?_,
+    (List.perm_ext_iff_of_nodup hn hout).2 hm, nodup_desired.1, nodup_desired.2⟩
+  intro i
+  simp only [List.mem_filter, has, List.contains_iff_mem, mem_singlesSet]
+  exact ⟨fun h => ⟨h.1, h.2.2⟩, fun h => ⟨h.1, hsub i h.1, h.2⟩⟩
+
+/-- **perm_is_perm** — the final `perm_ab`, when present, is a permutation of the output axes (for
+    HEAD's and the repaired planner alike); the transpose tuples `eq_a` / `eq_b` are permutations
+    of the operand's axes for the repaired planner, and for HEAD under `ShortcutSafe`
+    (`head_plan_counterexample` shows the 2-tuple HEAD returns for a rank-3 operand). -/
+theorem perm_is_perm (lc : Bool) (sz : Ix → Nat) (aT bT out : List Ix) (hout : out.Nodup)
+    (hsub : ∀ o ∈ out, o ∈ aT ∨ o ∈ bT) (plan : Plan)
+    (h : parseBmm lc aT bT out (aT.map sz) (bT.map sz) = some plan) :
+    (∀ p, plan.permAB = some p → isPermOf p out.length = true) ∧
+    ((lc = true ∨ ShortcutSafe aT bT out (aT.map sz) (bT.map sz)) →
+      (∀ p, plan.eqA = .perm p → isPermOf p aT.length = true) ∧
+      (∀ p, plan.eqB = .perm p → isPermOf p bT.length = true)) := by
+  obtain ⟨sizes, hs1, _⟩ := sizesOf_consistent sz aT bT
+  by_cases hc : (groups aT (aT.map sz) bT (bT.map sz) out).con.isEmpty = true
+  · rw [parseBmm_pure (by simp) (by simp) hs1 hc] at h
+    cases h
+    refine ⟨by simp [pureMul], fun _ => ⟨?_, ?_⟩⟩
+    · intro p hp; simp only [pureMul] at hp; split at hp <;> cases hp
+    · intro p hp; simp only [pureMul] at hp; split at hp <;> cases hp
+  · have hne : (groups aT (aT.map sz) bT (bT.map sz) out).con.isEmpty = false := by simpa using hc
+    obtain ⟨hm, hn⟩ := produced_spec (sz := sz) hout hsub
+    have hall : out.all (has (out.filter (has (singlesSet aT (aT.map sz) bT (bT.map sz))) ++
+        (groups aT (aT.map sz) bT (bT.map sz) out).bat ++
+        (groups aT (aT.map sz) bT (bT.map sz) out).aKeep ++
+        (groups aT (aT.map sz) bT (bT.map sz) out).bKeep)) = true := by
+      simp only [List.all_eq_true, has, List.contains_iff_mem]
+      exact fun o ho => (hm o).2 ho
+    rw [parseBmm_bmm (by simp) (by simp) hs1 rfl hne rfl hall] at h
+    cases h
+    have hprm : out.Perm _ := ((List.perm_ext_iff_of_nodup hn hout).2 hm).symm
+    refine ⟨?_, fun hg => ⟨?_, ?_⟩⟩
+    · intro p hp
+      simp only at hp
+      split at hp
+      · cases hp
+      · cases hp
+        rw [hprm.length_eq]
+        exact isPermOf_map_idxOf hn hout (fun o ho => (hm o).2 ho) (fun i hi => (hm i).1 hi)
+    · intro p hp
+      simp only [prepOf] at hp
+      split at hp
+      · cases hp
+      · split at hp
+        · rename_i h2
+          cases hp
+          have hss : sameSet aT (desiredA aT bT out (aT.map sz) (bT.map sz)) = true := by
+            cases hq : sameSet aT (desiredA aT bT out (aT.map sz) (bT.map sz))
+            · simp only [desiredA] at hq; rw [hq] at h2; simp at h2
+            · rfl
+          have hlen : aT.length = (desiredA aT bT out (aT.map sz) (bT.map sz)).length := by
+            rcases hg with hlc | hsafe
+            · simp only [desiredA] at hss ⊢
+              rw [hlc, hss] at h2
+              simpa using h2
+            · exact hsafe.1 hss
+          have hdn := (nodup_desired (sz := sz) (aT := aT) (bT := bT) (out := out)).1
+          simp only [sameSet, Bool.and_eq_true, List.all_eq_true, has, List.contains_iff_mem] at hss
+          have htn : aT.Nodup := nodup_of_sameSet hdn hss.2 hlen
+          exact isPermOf_map_idxOf htn hdn hss.2 hss.1
+        · cases hp
+    · intro p hp
+      simp only [prepOf] at hp
+      split at hp
+      · cases hp
+      · split at hp
+        · rename_i h2
+          cases hp
+          have hss : sameSet bT (desiredB aT bT out (aT.map sz) (bT.map sz)) = true := by
+            cases hq : sameSet bT (desiredB aT bT out (aT.map sz) (bT.map sz))
+            · simp only [desiredB] at hq; rw [hq] at h2; simp at h2
+            · rfl
+          have hlen : bT.length = (desiredB aT bT out (aT.map sz) (bT.map sz)).length := by
+            rcases hg with hlc | hsafe
+            · simp only [desiredB] at hss ⊢
+              rw [hlc, hss] at h2
+              simpa using h2
+            · exact hsafe.2 hss
+          have hdn := (nodup_desired (sz := sz) (aT := aT) (bT := bT) (out := out)).2
+          simp only [sameSet, Bool.and_eq_true, List.all_eq_true, has, List.contains_iff_mem] at hss
+          have htn : bT.Nodup := nodup_of_sameSet hdn hss.2 hlen
+          exact isPermOf_map_idxOf htn hdn hss.2 hss.1
+        · cases hp
+
 end Cotengra.C11
